@@ -17,6 +17,9 @@ Int = z3.IntSort()
 Bool = z3.BoolSort()
 
 xval = z3.Function("xval", Label, Real)           # ghost boolean assignment
+ISANC = z3.Function("isanc", Label, Bool)         # the label is an ancilla name '__a<n>'
+ANCIDX = z3.Function("ancidx", Label, Int)        # ... and n is its number
+KEYANC = z3.Function("keyanc", Key, Int)          # 1 + the largest ancilla number among the labels of the key, 0 if none
 INTP = z3.Function("intp", Real, Bool)           # "is an integer", as an abstract predicate (see Facts.intp)
 xint = z3.Function("xint", Label, Int)            # the same value as an integer (xval(i) == ToReal(xint(i)))
 bmono = z3.Function("bmono", Key, Real)            # product of xval over the key (with repetitions)
@@ -64,6 +67,7 @@ LEMMAS = {
     "L12-count": "if every stored coefficient of d equals c then the boolean value of d is c times the number of its monomials that evaluate to 1, a natural number <= the number of terms",
     "L13-origin": "at the all-zero boolean assignment (all spins +1) a monomial is 1 if its key is empty and 0 otherwise (spin: always 1), so the boolean value of a model there is its constant term",
     "intp-closure": "the integers contain 0, 1, -1, 2 and every cast of an integer, are closed under + - * unary minus and if-then-else, and an integer real has an integer witness: the only facts about the abstract integrality predicate intp",
+    "L14-keyanc": "keyanc(k) = max over the labels l of k of (ancidx(l)+1 if l is an ancilla name else 0): 0 for the empty key, the label's value for a unit key, max for a concatenation / head-and-tail, equal for the sorted duplicate-free key, not larger for the odd-multiplicity key; '__a%d' % n is an ancilla name with number n",
     "set-facts": "memset of empty/unit/concat; members(sorted(set k)) = members(k); members(ssq k) subset members(k); |S + {i}| = |S| + [i not in S]",
     "sq-shape": "sq(k) is duplicate-free, sorted, idempotent, no longer than k, members(sq k) subset members(k), identity on length <= 1",
 }
@@ -243,6 +247,8 @@ class Facts:
                                            matvalid(k) == z3.And(matvalid(unit(k0)), matvalid(unit(k1))))))
         for g in self.ghosts:
             self._key_facts(g, k)
+        if getattr(self, "track_anc", False):
+            self._anc_key(k)
         self.used.update(["L1-mono-def", "L2-range"])
         return k
 
@@ -268,6 +274,8 @@ class Facts:
             self._concat_facts(g, a, b, k)
         self.add(matvalid(k) == z3.And(matvalid(a), matvalid(b)))
         self._concats.append((a, b, k))
+        if getattr(self, "track_anc", False):
+            self._anc_concat(a, b, k)
         if self.track_sets:
             self.memset_concat(a, b, k)
         return k
@@ -282,6 +290,8 @@ class Facts:
         k = unit(i)
         self.key(k)
         self._units.append((i, k))
+        if getattr(self, "track_anc", False):
+            self.add(KEYANC(k) == self._lanc(i))
         for g in self.ghosts:
             self._unit_facts(g, i, k)
         return k
@@ -301,6 +311,8 @@ class Facts:
         self.add(z3.Implies(n >= 1, z3.And(k == z3.Concat(unit(k[0]), t), z3.Length(t) == n - 1,
                                            matvalid(k) == z3.And(matvalid(unit(k[0])), matvalid(t)))))
         self._tails.append((k, t))
+        if getattr(self, "track_anc", False):
+            self._anc_tail(k, t)
         for g in self.ghosts:
             self._tail_facts(g, k, t)
         return t
@@ -322,6 +334,47 @@ class Facts:
         else:
             self.add(self.memset_of(r) == self.memset_of(k))       # sorted(set(k)) has the same members as k
         self.used.add("set-facts")
+
+    # ---- ancilla numbers occurring in keys (freshness of constraint ancillas): keyanc(k), facts on the same key
+    # shapes as the monomial facts; enabled on first use
+    @staticmethod
+    def _lanc(i):
+        return z3.If(ISANC(i), ANCIDX(i) + 1, z3.IntVal(0))
+
+    def enable_anc(self):
+        if getattr(self, "track_anc", False):
+            return
+        self.track_anc = True
+        self.used.add("L14-keyanc")
+        for k in list(self._keys):
+            self._anc_key(k)
+        for a, b, k in list(self._concats):
+            self._anc_concat(a, b, k)
+        for i, k in list(self._units):
+            self.add(KEYANC(k) == self._lanc(i))
+        for k, t in list(self._tails):
+            self._anc_tail(k, t)
+        for spin, k, r in list(self._sqs):
+            self._anc_sq(spin, k, r)
+
+    def _anc_key(self, k):
+        n = z3.Length(k)
+        ka = KEYANC(k)
+        a0, a1 = self._lanc(k[0]), self._lanc(k[1])
+        self.add(z3.And(ka >= 0, z3.Implies(n == 0, ka == 0), z3.Implies(n == 1, ka == a0),
+                        z3.Implies(n == 2, ka == z3.If(a0 >= a1, a0, a1))))
+
+    def _anc_concat(self, a, b, k):
+        x, y = KEYANC(a), KEYANC(b)
+        self.add(KEYANC(k) == z3.If(x >= y, x, y))
+
+    def _anc_tail(self, k, t):
+        x, y = self._lanc(k[0]), KEYANC(t)
+        self.add(z3.Implies(z3.Length(k) >= 1, KEYANC(k) == z3.If(x >= y, x, y)))
+
+    def _anc_sq(self, spin, k, r):
+        # the canonical key has the same members (boolean) / a subset of the members (spin)
+        self.add(KEYANC(r) <= KEYANC(k) if spin else KEYANC(r) == KEYANC(k))
 
     def enable_sets(self):
         """from now on (and retroactively) relate memset to concatenation and canonicalisation"""
@@ -372,6 +425,7 @@ class Facts:
         """the label '__a%d' % n ; distinct numbers give distinct labels"""
         e = anc(n)
         self.label(e)
+        self.add(z3.And(ISANC(e), ANCIDX(e) == n))
         if not hasattr(self, "_ancs"):
             self._ancs = []
         for m in self._ancs:
@@ -490,6 +544,8 @@ class Facts:
         self.add(z3.Implies(z3.Length(k) <= 1, r == k))
         self.add(z3.Implies(matvalid(k), matvalid(r)))
         self._sqs.append((spin, k, r))
+        if getattr(self, "track_anc", False):
+            self._anc_sq(spin, k, r)
         if self.track_sets:
             self._sq_set_fact(spin, k, r)
         self.used.add("sq-shape")
